@@ -638,6 +638,47 @@ func (r *runner) judge(si int, a *applied, res readResult, want []byte, tampered
 		}
 		// KF-C17-3: end of part = "no shard has another frame": every shard is missing, unusable at open
 		// (bad shard header) or ends at the same frame edge -> clean EOF
+		// combination of the mechanisms above in one fault set (e.g. a stale shard plus a shard with
+		// trailing bytes): undo every fault of a kind whose finding is enabled; what is left must
+		// meet the expectation under the trusting decoder.
+		{
+			und := make([][]byte, len(tampered))
+			for i := range tampered {
+				und[i] = tampered[i]
+			}
+			left := nF
+			var hits []string
+			add := func(h string) {
+				for _, x := range hits {
+					if x == h {
+						return
+					}
+				}
+				hits = append(hits, h)
+			}
+			for i, ks := range a.kinds {
+				if len(ks) != 1 {
+					continue
+				}
+				switch {
+				case ks[0] == "flip:databytes" && r.env.Known("c17.frameDataBytesTrusted"):
+					und[i] = orig[i]
+					left--
+					add("KF-C17-1")
+				case (ks[0] == "stale" || ks[0] == "foreign") && r.env.Known("c17.staleShardAccepted"):
+					und[i] = nil
+					add("KF-C17-2")
+				case (ks[0] == "junk" || ks[0] == "dupframe") && r.env.Known("c17.trailingBytesFailRead"):
+					und[i] = orig[i]
+					add("KF-C17-4")
+				}
+			}
+			if len(hits) >= 2 && satisfied(und, left) {
+				o.KnownHits = append(o.KnownHits, hits...)
+				o.Class(phase + ":known-combination")
+				return true, true
+			}
+		}
 		if nF > P && res.err == nil && r.env.Known("c17.commonTruncationCleanEOF") {
 			// the decoder that trusts consistent shards ends cleanly only through that rule; shards
 			// with other faults were merely dropped earlier. Require a shard that ends early / is
